@@ -140,6 +140,21 @@ theorem idwt_zero_local (g0 g1 lo lo' hi hi' : List R) (hg : g1.length = g0.leng
       rw [z0, z1]; ring
   · rfl
 
+/-- **the stationary transform reads a circular window**: coefficient `k` of `pywt.swt` at dilation `d` reads the `L` samples
+`x[(k + d (L/2 − i)) mod N]`, `i < L`, and nothing else -/
+theorem swt_local (h x x' : List R) (d : Nat) (hlen : x.length = x'.length) (k : Nat)
+    (hw : ∀ i : Nat, i < h.length → getZ x (((k:Int) + (d:Int) * (((h.length / 2 : Nat):Int) - i)) % (x.length : Int))
+      = getZ x' (((k:Int) + (d:Int) * (((h.length / 2 : Nat):Int) - i)) % (x.length : Int))) :
+    getN (Spec.swt h x d) k = getN (Spec.swt h x' d) k := by
+  unfold Spec.swt
+  rw [getN_tab, getN_tab, ← hlen]
+  split
+  · rw [sumN_eq, sumN_eq]
+    apply Finset.sum_congr rfl
+    intro i hi
+    rw [hw i (Finset.mem_range.mp hi)]
+  · rfl
+
 /-- non-vacuity and what the window is for `db2` (`L = 4`), two levels, coefficient 5: the samples 11 … 23 -/
 example : ((2:Int) ^ 2 * 5 - ((2:Int) ^ 2 - 1) * ((4:Int) - 1), (2:Int) ^ 2 * 5 + (2:Int) ^ 2 - 1) = (11, 23) := by decide
 
